@@ -259,8 +259,9 @@ def _drop_selectors(t: T) -> T:
     """registry[selector](value) -> value: the class chosen by a registry lookup is a selector, not part of the value."""
     def go(x):
         if isinstance(x, T):
-            if x.op == "call" and x.a[0].op == "sub" and x.a[0].a[0].op == "global":
-                return T("call", (x.a[0].a[0], go(x.a[1]), go(x.a[2])))
+            if x.op == "call" and x.a[0].op in ("sub", "call", "ite") and any(y.op == "global" for y in sym.walk(x.a[0])):
+                # the callee is itself computed from a registry (table[ns] / table.get(ns) / a conditional of those)
+                return T("call", (T("global", ("<registry-selected class>",)), go(x.a[1]), go(x.a[2])))
             return T(x.op, go(x.a))
         if isinstance(x, tuple):
             return tuple(go(e) for e in x)
